@@ -525,10 +525,10 @@ theorem zqConv_correct (cst : Bool) (KZ : Nat) (zh : Heap) (P : Nat) (e : E) (h 
   obtain ⟨hwt, hz, hq, hc⟩ := h
   unfold zqConv
   by_cases hty : e.ty = .z
-  · rw [if_pos hty, evalTmp_z _ e hty]
+  · rw [if_pos hty, evalTmp_z zh e hty hc]
     have H := bindZ_correct cst (evalZ_correct cst) e hty hwt KZ zh hz
-    show _ = ((evalTmpZ (fun i => zh (.v i)) e).map Val.z).map (convF P)
-    cases hr : evalTmpZ (fun i => zh (.v i)) e with
+    show _ = ((evalTmpZ zh.get e).map Val.z).map (convF P)
+    cases hr : evalTmpZ zh.get e with
     | none => rw [hr] at H; simp only at H; rw [H]; rfl
     | some x =>
       rw [hr] at H; obtain ⟨l, h', e1, hx, _, _⟩ := H
